@@ -25,7 +25,7 @@ def shards(tier):
 
 
 def required_classes(tier):
-    return ["add:generic", "add:P=Q", "add:P=-Q", "add:identity", "multiply:n=0", "multiply:n<0", "multiply:n>=N", "multiply:random", "multiply:hash-colliding", "add:shared-coordinate", "add:hash-colliding",
+    return ["add:generic", "add:P=Q", "add:P=-Q", "add:identity", "multiply:n=0", "multiply:n<0", "multiply:n>=N", "multiply:random", "multiply:endomorphism-eigenvalue", "add:near-x", "inv:small-and-structured", "multiply:hash-colliding", "add:shared-coordinate", "add:hash-colliding",
             "privtopub", "W4:pairs", "W4:scalars", "constants"]
 
 
@@ -97,6 +97,17 @@ def real_curve(rec, s):
             pairs.append(("add:hash-colliding", A_, B_))
             pairs.append(("add:hash-colliding", C_, (lift[0][0][0], lift[0][1][0])))
             break
+    # operands whose x-coordinates differ by a small integer (the slope denominator is then a small number), both signs
+    for a_ in mvals[:3]:
+        found = 0
+        for delta in list(range(1, 60)) + list(range(-1, -60, -1)):
+            lift = MS.E.lift_x(((a_[0] + delta) % P,))
+            if lift:
+                pairs.append(("add:near-x", a_, (lift[0][0][0], lift[0][1][0])))
+                pairs.append(("add:near-x", (lift[1][0][0], lift[1][1][0]) if len(lift) > 1 else (lift[0][0][0], lift[0][1][0]), a_))
+                found += 1
+                if found >= 8:
+                    break
     for cls, a, b in pairs:
         i += 1
         if not rec.mine(i):
@@ -105,6 +116,17 @@ def real_curve(rec, s):
             cls = "add:P=Q" if a == b else "add:P=-Q"
         rec.case(cls, ("add", a, b), sample={"fn": "add", "a": a, "b": b})
         call(s.add, a, b)
+    # the helpers the public functions are built on, on small and structured arguments (they are public names of the module too)
+    for a_ in list(range(0, 40)) + [P - k for k in range(1, 12)] + [1 << k for k in (8, 31, 32, 52, 53, 54, 63, 64, 128, 255)] + [(1 << 53) + 1, (1 << 64) - 1]:
+        i += 1
+        if rec.mine(i):
+            rec.case("inv:small-and-structured", ("inv", a_), sample={"fn": "inv", "a": a_} if a_ < 3 else None)
+            call(s.inv, a_, P)
+            call(s.inv, a_, N)
+            gx, gy = mvals[0]
+            z_ = a_ % P
+            if z_:
+                call(s.from_jacobian, (gx * z_ * z_ % P, gy * z_ * z_ * z_ % P, z_))
     # scalars
     CG_M61 = (1 << 61) - 1
 
@@ -116,6 +138,10 @@ def real_curve(rec, s):
             yield "multiply:n>=N", n
         for n in (-1, -2, -N, -N - 1, -N + 1, -(1 << 300) - 3):
             yield "multiply:n<0", n
+        for n in CG.endo_scalars(N):
+            yield "multiply:endomorphism-eigenvalue", n
+        for n in list(range(4, 40)) + [N - k for k in range(2, 12)]:
+            yield "multiply:small/N-1", n
         n0 = rng.getrandbits(250)
         for n in (n0, n0 + CG_M61, n0 + 7 * CG_M61, n0):
             yield "multiply:hash-colliding", n
